@@ -734,6 +734,25 @@ const FAMILY_LENGTHS: [usize; 10] = [7, 8, 9, 10, 11, 18, 19, 20, 21, 40];
 /// quick tier: values of the last-but-one byte of a boundary family (the last byte takes all 256)
 const QUICK_B1: [u8; 17] = [0x00, 0x01, 0x02, 0x03, 0x04, 0x3e, 0x3f, 0x40, 0x41, 0x7c, 0x7d, 0x7e, 0x7f, 0x80, 0x81, 0xfe, 0xff];
 
+/// quick tier: values of the last byte when byte n-1 terminates the string (the last byte is
+/// then only a trailing byte after an (n-1)-byte string)
+const QUICK_TRAIL: [u8; 16] = [0x00, 0x01, 0x02, 0x2a, 0x3f, 0x40, 0x41, 0x7e, 0x7f, 0x80, 0x81, 0xbf, 0xc0, 0xc1, 0xfe, 0xff];
+fn quick_tails() -> Vec<(u8, u8)> {
+    let mut v = vec![];
+    for b1 in QUICK_B1 {
+        if b1 < 0x80 {
+            for b2 in QUICK_TRAIL {
+                v.push((b1, b2));
+            }
+        } else {
+            for b2 in 0..=255u8 {
+                v.push((b1, b2));
+            }
+        }
+    }
+    v
+}
+
 /// run-length patterns of length m over ALPHA with at most `max_runs` runs (adjacent runs differ)
 fn run_patterns(m: usize, max_runs: usize) -> Vec<Vec<u8>> {
     let mut out = vec![];
@@ -847,13 +866,14 @@ fn run_all(ctx: &Ctx, only: &[String]) -> RunResult {
             continue;
         }
         let prefixes = run_patterns(n - 2, 2);
-        let tails: u64 = tier.pick(QUICK_B1.len() as u64 * 256, 65536);
+        let qt = quick_tails();
+        let tails: u64 = tier.pick(qt.len() as u64, 65536);
         let total = prefixes.len() as u64 * tails;
         let r = ctx.par_range(&name, total, 2048, || (TState::new(&global), Vec::with_capacity(48)), |(st, s), i, rep| {
             let p = &prefixes[(i / tails) as usize];
             let t = i % tails;
             let (b1, b2) = match tier {
-                Tier::Quick => (QUICK_B1[(t / 256) as usize], (t % 256) as u8),
+                Tier::Quick => qt[t as usize],
                 Tier::Thorough => ((t >> 8) as u8, t as u8),
             };
             s.clear();
@@ -1252,6 +1272,14 @@ fn main() {
         }
     };
 
+    // replay files of earlier runs of this property are stale once a new sweep reports
+    if let Ok(rd) = std::fs::read_dir("/verif/replays/C09") {
+        for f in rd.flatten() {
+            if f.path().extension().map(|x| x == "json").unwrap_or(false) {
+                let _ = std::fs::remove_file(f.path());
+            }
+        }
+    }
     let ctx = Ctx::new("C09", a.tier, cap + 60);
     let res = run_all(&ctx, &a.only);
     let mut rep = res.rep;
@@ -1358,13 +1386,13 @@ fn main() {
     let code = finish(
         &ctx,
         rep,
-        "inputs = byte strings: (i) all strings of length <= L (quick L=2, thorough L=3, incl. the empty string), each followed by a sentinel for the reader entry points; (ii) for n in {7,8,9,10,11,18,19,20,21,40}: (one run | two runs with every split point) over {80,ff,81,c0,bf} of length n-2, followed by two free bytes (thorough: all 65536; quick: 17 listed values of byte n-1 x all 256 of byte n); (iii) all-continuation strings of length 1..21 in run-length form (quick <=2 runs, thorough <=3 runs). Every input goes to the 4 reader entry points; the 13 message-level entry points get it when it is exactly one terminated string, or unterminated (in family ii: only when the last byte is one of the 5 pattern bytes), or (family ii) a terminated string followed by one 00. Encoders: all integers +-2^k+d, |d|<=2, k<=200 on 10 encoder entry points (128-bit ones when in range). Non-trivial = the reference defines a value (terminated string / applicable encoder). A violation key is (entry point, failure class, byte length) with the smallest failing input of that key as the recorded case; all sweeps are repeated by the plain --release build.",
+        "inputs = byte strings: (i) all strings of length <= L (quick L=2, thorough L=3, incl. the empty string), each followed by a sentinel for the reader entry points; (ii) for n in {7,8,9,10,11,18,19,20,21,40}: (one run | two runs with every split point) over {80,ff,81,c0,bf} of length n-2, followed by two free bytes (thorough: all 65536; quick: 17 listed values of byte n-1; byte n takes all 256 values when byte n-1 is a continuation byte and 16 listed values when byte n-1 terminates the string); (iii) all-continuation strings of length 1..21 in run-length form (quick <=2 runs, thorough <=3 runs). Every input goes to the 4 reader entry points; the 13 message-level entry points get it when it is exactly one terminated string, or unterminated (in family ii: only when the last byte is one of the 5 pattern bytes), or (family ii) a terminated string followed by one 00. Encoders: all integers +-2^k+d, |d|<=2, k<=200 on 10 encoder entry points (128-bit ones when in range). Non-trivial = the reference defines a value (terminated string / applicable encoder). A violation key is (entry point, failure class, byte length) with the smallest failing input of that key as the recorded case; all sweeps are repeated by the plain --release build.",
         &[
             "refmodel::leb (R6) is a correct reading of LEB128 / SLEB128 in spec/Candid.md",
             "hand-written message templates are validated at start-up against the reference wire decoder R2",
             "error position / message of rejected inputs is unspecified and not compared",
         ],
-        json!({"scope": res.scope, "profile_digests": digest_cmp, "decoder_entry_points": DEC, "encoder_entry_points": ENC, "quick_byte_n_minus_1_values": QUICK_B1.iter().map(|b| format!("{b:02x}")).collect::<Vec<_>>()}),
+        json!({"scope": res.scope, "profile_digests": digest_cmp, "decoder_entry_points": DEC, "encoder_entry_points": ENC, "quick_byte_n_minus_1_values": QUICK_B1.iter().map(|b| format!("{b:02x}")).collect::<Vec<_>>(), "quick_trailing_byte_values": QUICK_TRAIL.iter().map(|b| format!("{b:02x}")).collect::<Vec<_>>()}),
     );
     std::process::exit(code);
 }
